@@ -206,6 +206,17 @@ func probeSuite(cfgs ...*cors.Config) []reqT {
 			for _, h := range c.RequestHeaders {
 				if h != "*" {
 					out = append(out, reqT{method: "OPTIONS", hdrs: http.Header{"Origin": {og}, "Access-Control-Request-Method": {"POST"}, "Access-Control-Request-Headers": {strings.ToLower(h)}}})
+					// the same name spread over many field lines (17 and 40: thresholds on the NUMBER of lines), failing and not
+					for _, nl := range []int{17, 40} {
+						lines := make([]string, nl)
+						lines[0] = strings.ToLower(h)
+						out = append(out, reqT{method: "OPTIONS", hdrs: http.Header{"Origin": {og}, "Access-Control-Request-Method": {"POST"}, "Access-Control-Request-Headers": lines[:min(nl, 16)]}})
+						bad := make([]string, nl)
+						for k := range bad {
+							bad[k] = "x-unlisted"
+						}
+						out = append(out, reqT{method: "OPTIONS", hdrs: http.Header{"Origin": {og}, "Access-Control-Request-Method": {"POST"}, "Access-Control-Request-Headers": bad}})
+					}
 					break
 				}
 			}
@@ -375,13 +386,17 @@ func famHistWant(want string) family {
 				a = cors.Config{Origins: []string{"http://example.com", "https://example.org"}, Methods: []string{"PUT"}, RequestHeaders: []string{"X-Foo"}}
 			}
 			if s >= 4 && s < 12 { // boundary list sizes in the current state; B extends A's origin list by one related origin
-				cnt := []int{16, 8, 32, 64, 15, 17, 9, 33}[s-4]
+				cnt := []int{16, 8, 32, 64, 15, 17, 260, 33}[s-4] // 260 names of 20 bytes: the joined list exceeds 4 KiB
 				a = cors.Config{Origins: []string{"https://example.com"}, Methods: []string{"PUT"}, MaxAgeInSeconds: 30}
-				for _, h := range genSiblings(r, cnt) {
+				for _, h := range genSiblings(r, min(cnt, 36)) {
 					a.Origins = append(a.Origins, "https://"+h)
 				}
 				for k := 0; k < cnt; k++ {
-					a.RequestHeaders = append(a.RequestHeaders, "x-b"+strconv.Itoa(100 + k)[1:])
+					nm := "x-b" + strconv.Itoa(1000 + k)[1:]
+					if cnt > 200 {
+						nm = "x-long-header-b" + strconv.Itoa(10000 + k)[1:]
+					}
+					a.RequestHeaders = append(a.RequestHeaders, nm)
 				}
 				bcfg = cloneCfg(a)
 				bcfg.Origins = append(bcfg.Origins, "https://zz"+a.Origins[1][len("https://")+1:])
@@ -1013,6 +1028,9 @@ func famTwins(o *Out, r R, tier string) {
 		for _, debug := range []bool{false, true} {
 			m1, m2 := newMW(&c, debug), newMW(&t, debug)
 			if m1 == nil {
+				if m2 != nil { // equivalent configurations are accepted alike
+					o.emitDirect("twin-rejected", false, str(cfgSX(&t))+" is accepted while its twin is rejected: "+str(cfgSX(&c)))
+				}
 				return
 			}
 			if m2 == nil {
@@ -1065,6 +1083,19 @@ func famTwins(o *Out, r R, tier string) {
 			c2 := cloneCfg(c)
 			c2.RequestHeaders = []string{"x-foo", "*", auth}
 			emitTwin("twin-star-auth", c2, t2)
+		}
+	}
+	// nested public-suffix lists in every order, with and without the tolerance (rejected twins must be rejected alike)
+	for _, l := range originsPSLNested {
+		for _, tol := range []bool{false, true} {
+			for _, perm := range permutations(l) {
+				c := cors.Config{Origins: append([]string{}, l...)}
+				c.DangerouslyTolerateSubdomainsOfPublicSuffixes = tol
+				t := cloneCfg(c)
+				t.Origins = perm
+				emitTwin("twin-psl-nested", c, t)
+				emitTwin("twin-psl-nested", t, c)
+			}
 		}
 	}
 	// one host under four to six schemes with one to three ports each (one tree node holding several parallel port
